@@ -204,8 +204,23 @@ def scope_program(rng, big=0):
                 stmts.append((func(vis, depth + 1, expression=False), None))
             elif r < 0.65:
                 p = rng.choice(vis + FIRST_NAMES) if rng.random() < 0.5 else fresh()
-                inner = 'var %s = %s;' % (p, expr(vis + [p])) if rng.random() < 0.3 else '%s(%s);' % (
-                    rng.choice(vis or ['f']), p)
+                q = rng.random()
+                if q < 0.15:
+                    inner = 'var %s = %s;' % (p, expr(vis + [p]))
+                elif q < 0.4 or depth >= 4:
+                    inner = '%s(%s);' % (rng.choice(vis or ['f']), p)
+                elif q < 0.7:
+                    # a function (with names of its own) in the catch block that uses the catch parameter
+                    a, b = fresh(), fresh()
+                    inner = '%s(function (%s, %s) { var %s = %s; return %s(%s, %s); });' % (
+                        rng.choice(vis or ['f']), a, b, fresh(), expr(vis + [p, a, b]), a, p, b)
+                elif q < 0.85:
+                    # a catch in a catch, both parameters used inside
+                    p2 = fresh()
+                    inner = 'try { %s(%s); } catch (%s) { %s(%s, %s); }' % (
+                        rng.choice(vis or ['f']), p, p2, rng.choice(vis or ['g']), p, p2)
+                else:
+                    inner = body(vis + [p], depth + 1, rng.randint(1, 3))[0]
                 stmts.append(('try { %s; } catch (%s) { %s }' % (expr(vis), p, inner), None))
             elif r < 0.72:
                 lab = rng.choice(['outer', 'loop', 'a', 'b', rng.choice(vis) if vis else 'l'])
